@@ -22,7 +22,8 @@ fn h(r: &Revision) -> u64 {
 
 /// every revision reachable through the constructors the system uses, with the recipe that built it
 pub fn reachable(thorough: bool) -> Vec<(Revision, Option<Revision>, String)> {
-    let objs = vec![json!({"v":1}), json!({"v":2}), json!({"A":["x","y"]}), json!({"a":[["i",0,["x"]]]}), json!({})];
+    // (the last three are bare character-code objects: their digest is the code itself, in the case the user wrote it)
+    let objs = vec![json!({"v":1}), json!({"v":2}), json!({"A":["x","y"]}), json!({"a":[["i",0,["x"]]]}), json!({}), json!({"#":"41"}), json!({"#":"1F600"}), json!({"#":"aB"})];
     let digests: Vec<String> = objs.iter().map(|o| digest_object(o.as_object().unwrap()).unwrap()).collect();
     let mut out: Vec<(Revision, Option<Revision>, String)> = vec![];
     let mut seen = BTreeSet::new();
